@@ -170,9 +170,10 @@ class Producer:
         try:
             if G.has_inexact_int(d) and G.mentions_float(t, u):
                 raise ValueError("int rounded by float(): outside the exact-rational float model")
-            if G.count_nan(d) >= 2 and G.mentions_set(t, u):
-                # whether two nan are one member of a Python set depends on their being the same object
-                raise ValueError("several nan at a set position: membership depends on object identity")
+            if G.count_nan(d) >= 2 and (G.mentions_set(t, u) or G.mentions_unique(t, u, root)):
+                # whether two nan are one member of a Python set depends on their being the same object; whether they are
+                # "the same item" for uniqueItems is not defined by JSON (nan is no JSON number): the model says equal, == says no
+                raise ValueError("several nan at a set / uniqueItems position: outside the model")
             c.obs = G.obs_coq(c.kind, c.payload, U)
             c.coq = G.case_coq(f"U{uidx}", opts, root, t, d, c.obs)
         except ValueError as e:
